@@ -1039,6 +1039,10 @@ impl<
             self.backward_tot.as_sync_slice()
         };
 
+        // In the symmetric case the bounds raised by this visit are the
+        // forward ones, so a vertex completed here competes for the radius
+        let radius = RwLock::new((self.radius_high, self.radius_vertex));
+
         self.visit.reset();
         self.visit
             .par_visit_with([start], pl.clone(), |pl, event| {
@@ -1056,11 +1060,24 @@ impl<
 
                     if node_backward_low != node_backward_high && node_backward_low < distance {
                         unsafe { backward_low[node].set(distance) };
+
+                        if self.symmetric
+                            && distance == node_backward_high
+                            && self.radial_vertices[node]
+                        {
+                            let mut radius_lock = radius.write().unwrap();
+                            if distance < radius_lock.0 {
+                                radius_lock.0 = distance;
+                                radius_lock.1 = node;
+                            }
+                        }
                     }
                 }
                 Continue(())
             })
             .continue_value_no_break();
+
+        (self.radius_high, self.radius_vertex) = radius.into_inner().unwrap();
 
         let ecc_start = max_dist.load(Ordering::Relaxed);
 
